@@ -43,6 +43,8 @@ struct Slot {
 struct World {
     backend: ServerBackend,
     handle: axum_server::Handle,
+    addr: std::net::SocketAddr,
+    sroot: PathBuf,
     account_id: AccountId,
     editor: NetworkAccount,
     reader: NetworkAccount,
@@ -52,6 +54,24 @@ struct World {
     /// every blob ever created: real file -> (slot, content)
     seen: BTreeMap<String, (String, String)>,
     inputs: PathBuf,
+}
+
+/// Failed transfers are retried at once and re-queued every 250 ms (the
+/// values the repository uses for its own tests; the production defaults wait
+/// 180 s before a failed transfer is tried again, longer than the settle time
+/// of this harness).
+fn fast_transfer_options() -> NetworkAccountOptions {
+    use sos_net::FileTransferSettings;
+    use sos_protocol::network_client::NetworkRetry;
+    NetworkAccountOptions {
+        file_transfer_settings: FileTransferSettings {
+            concurrent_requests: 4,
+            failure_interval: Duration::from_millis(250),
+            failure_expiry: Duration::from_millis(0),
+            retry: NetworkRetry::new(4, 0),
+        },
+        ..Default::default()
+    }
 }
 
 fn content_bytes(idx: usize, slot: &str, c: &str) -> Vec<u8> {
@@ -123,7 +143,7 @@ impl World {
             format!("verif-files-{idx}"),
             password.clone(),
             target_for(&d1).await?,
-            NetworkAccountOptions::default(),
+            fast_transfer_options(),
             |b| b.create_file_password(true),
         )
         .await?;
@@ -148,7 +168,7 @@ impl World {
         let mut reader = NetworkAccount::new_unauthenticated(
             account_id,
             target_for(&d2).await?,
-            NetworkAccountOptions::default(),
+            fast_transfer_options(),
         )
         .await?;
         reader.set_connection_id(Some("device_2".to_string()));
@@ -163,6 +183,8 @@ impl World {
         Ok(Self {
             backend,
             handle,
+            addr,
+            sroot: sroot.clone(),
             account_id,
             editor,
             reader,
@@ -172,6 +194,35 @@ impl World {
             seen: BTreeMap::new(),
             inputs,
         })
+    }
+
+    /// The server becomes unreachable: the listener is shut down.
+    async fn server_down(&mut self) {
+        self.handle.graceful_shutdown(Some(Duration::from_millis(200)));
+        tokio::time::sleep(Duration::from_millis(600)).await;
+    }
+
+    /// The server listens again on the same address with the same storage.
+    async fn server_up(&mut self) -> Result<()> {
+        let mut config = ServerConfig::default();
+        config.storage.path = self.sroot.clone();
+        config.set_bind_address(self.addr);
+        let state = Arc::new(RwLock::new(State::new(config)));
+        let handle = axum_server::Handle::new();
+        {
+            let (state, backend, handle) = (state.clone(), self.backend.clone(), handle.clone());
+            tokio::spawn(async move {
+                let server = Server::new().await.expect("server");
+                if let Err(e) = server.start(state, backend, handle).await {
+                    eprintln!("server stopped: {e:?}");
+                }
+            });
+        }
+        tokio::time::timeout(Duration::from_secs(20), handle.listening())
+            .await?
+            .ok_or_else(|| anyhow!("server did not restart"))?;
+        self.handle = handle;
+        Ok(())
     }
 
     async fn server_reduce(&self) -> Result<BTreeSet<String>> {
@@ -269,7 +320,12 @@ pub async fn run_case(idx: usize, hist: &Value, scratch: &Path, out: &mut Summar
     );
     let steps = hist.as_array().cloned().unwrap_or_default();
     let mut reader_synced_once = false;
+    // the run as FilesTrace.tla reads it: operations in order, with the server's
+    // blob set observed after the settle time of the steps taken while it was reachable
+    let mut trace: Vec<Value> = Vec::new();
+    let violations_before = out.violations.len();
     for (n, step) in steps.iter().enumerate() {
+        trace.push(json!({"op": step["op"], "obs": false, "srv": []}));
         let op = step["op"].as_array().cloned().unwrap_or_default();
         let a = |i: usize| op.get(i).and_then(|v| v.as_str()).unwrap_or("").to_string();
         let name = a(0);
@@ -340,6 +396,16 @@ pub async fn run_case(idx: usize, hist: &Value, scratch: &Path, out: &mut Summar
                     w.editor.delete_folder(&fid).await?;
                     w.slots.retain(|_, sl| sl.folder != f);
                 }
+                "ServerDown" => {
+                    w.server_down().await;
+                }
+                "ServerUp" => {
+                    w.server_up().await?;
+                    let res = w.editor.sync().await;
+                    if let Some(e) = res.first_error() {
+                        return Err(anyhow!("sync of the editor after the server came back failed: {e:?}"));
+                    }
+                }
                 "SyncReader" => {
                     let res = w.reader.sync().await;
                     if let Some(e) = res.first_error() {
@@ -405,7 +471,10 @@ pub async fn run_case(idx: usize, hist: &Value, scratch: &Path, out: &mut Summar
             if !stray.is_empty() {
                 fail(out, format!("files that are not blobs in the editor's files directory: {stray:?}"));
             }
-            // ServerExact once transfers settle
+            // ServerExact once transfers settle (not while the server is unreachable)
+            if step["online"] == false || name == "ServerDown" {
+                continue;
+            }
             let t0 = Instant::now();
             let mut last = (BTreeSet::new(), BTreeSet::new());
             let mut ok = false;
@@ -414,17 +483,29 @@ pub async fn run_case(idx: usize, hist: &Value, scratch: &Path, out: &mut Summar
                 let srv_log = w.server_reduce().await.unwrap_or_default();
                 if on_server == srv_log && srv_log == reduced && World::stray(&w.server_paths).is_empty() {
                     ok = true;
+                    last = (on_server, srv_log);
                     break;
                 }
                 last = (on_server, srv_log);
                 tokio::time::sleep(Duration::from_millis(50)).await;
             }
             out.count("settle_ms_server", t0.elapsed().as_millis() as u64);
+            if let Some(t) = trace.last_mut() {
+                t["obs"] = json!(true);
+                t["srv"] = json!(w.project(&last.0).into_iter().collect::<Vec<_>>());
+            }
             if !ok {
-                fail(out, format!(
-                    "{}s after the operation the server's blobs {:?} are not the files named by its file log {:?} (editor log: {:?}; stray: {:?})",
-                    settle.as_secs(), w.project(&last.0), w.project(&last.1), w.project(&reduced), World::stray(&w.server_paths)
-                ));
+                let log_pushed = last.1 == reduced;
+                out.violation(
+                    format!(
+                        "after step {n} {:?}: {}s after the operation the server's blobs {:?} are not the files named by its file log {:?} (editor log: {:?}; stray: {:?})",
+                        step["op"], settle.as_secs(), w.project(&last.0), w.project(&last.1), w.project(&reduced), World::stray(&w.server_paths)
+                    ),
+                    json!({"case": hist, "idx": idx, "step": n, "kind": "server_settle", "log_pushed": log_pushed,
+                           "stray": World::stray(&w.server_paths), "trace": trace}),
+                );
+                // what follows in this case would be a consequence of this
+                break;
             } else {
                 // every server blob hashes to its name
                 for k in World::listed(&w.server_paths).await? {
@@ -488,8 +569,8 @@ pub async fn run_case(idx: usize, hist: &Value, scratch: &Path, out: &mut Summar
     out.nontrivial_keys.push(
         steps.iter().map(|s| s["op"][0].as_str().unwrap_or("").to_string()).collect::<Vec<_>>().join(">"),
     );
-    if out.samples.len() < 3 {
-        out.sample(json!(steps.iter().map(|s| s["op"].clone()).collect::<Vec<_>>()));
+    if out.samples.len() < 3 && out.violations.len() == violations_before {
+        out.sample(json!({"trace": trace}));
     }
     let t_out = Instant::now();
     let _ = tokio::time::timeout(Duration::from_secs(10), w.editor.sign_out()).await;
